@@ -32,6 +32,7 @@ type hist struct {
 	nfake     int
 	wrote     bool
 	dead      bool // a call did not return: the engine is abandoned
+	nops      int
 	noRefresh bool // do not read through the unique indexes before an insert (witness of the stale-snapshot defect)
 	hits      int  // searches that returned at least one document
 }
@@ -50,7 +51,8 @@ func (h *hist) step(op, obs string) { h.steps = append(h.steps, "("+op+", "+obs+
 // finding: label == "" means the implementation violates the property statement for a reason
 // that is not one of the known ones
 func (h *hist) finding(label, what string) {
-	txt := fmt.Sprintf("C19 %s%s | history seed=%d (%s) | %s", label, what, h.seed, h.name, h.schemaString())
+	txt := fmt.Sprintf("C19 %s%s | history seed=%d (%s) | %s | replay file: {\"case\":{\"hseed\":\"%d\",\"cfg\":\"%s\",\"edgy\":%v,\"nops\":%d}}",
+		label, what, h.seed, h.name, h.schemaString(), h.seed, h.name, h.o.edgy, h.nops)
 	if label == "" {
 		h.viol++
 	} else {
@@ -960,6 +962,7 @@ func runHistory(r *vk.Run, gp **Eng, seed int64, cfg histCfg) error {
 	resetIDs()
 	h := &hist{r: r, rng: rng, g: g, seed: seed, name: cfg.name, feats: map[string]bool{}}
 	h.o = genOpts{edgy: cfg.edgy, badTypes: true}
+	h.nops = cfg.nops
 	if cfg.coll != nil {
 		h.c = cfg.coll
 	} else {
